@@ -16,8 +16,11 @@ Scenario (one gthread worker, max_requests=2, an application that takes 0.4 s):
 Property: "clients never see a refused or dropped request because of the
 recycling".  Every client must receive a complete 200 response.
 """
+import os as _os
+_TREE_UNDER_TEST = _os.environ.get("GVERIF_REPO") or _os.getcwd()   # the checkout under test (was the auditing agent's scratch worktree)
+
 import sys
-sys.path.insert(0, "/tmp/wa_C18")
+sys.path.insert(0, _TREE_UNDER_TEST)
 
 import os
 import signal
@@ -26,7 +29,7 @@ import subprocess
 import tempfile
 import time
 
-HERE = "/tmp/wa_C18"
+HERE = _TREE_UNDER_TEST
 ROUNDS = 3
 
 APP = '''
